@@ -106,6 +106,13 @@ def jobs(tier, seed):
             for sm in stepmodes:
                 out.append(('Hs-%s-d%d-%s' % (method, dim, sm),
                             dict(cls='Hessian', method=method, n=2, order=None, shape=[dim], stepmode=sm)))
+    # the promise is about the method the object has NOW: objects whose method was switched after a first call
+    for cls in ('Derivative', 'Jacobian'):
+        for prev, method in (('forward', 'backward'), ('backward', 'forward'), ('central', 'forward'), ('forward', 'central'),
+                             ('central', 'complex')):
+            for n in ((1, 2, 3) if cls == 'Derivative' else (1,)):
+                out.append(('%s-switched-%s-to-%s-n%d' % (cls[0], prev, method, n),
+                            dict(cls=cls, method=method, n=n, order=2, shape=[] if cls == 'Derivative' else [2], stepmode='default', prev=prev)))
     out.append(('FP-lemmas', dict(cls='FP', method='', n=0, order=0, shape=[], stepmode=tier)))
     return out
 
@@ -177,7 +184,8 @@ def run_trace(cfg, xvals, h0, symbolic):
         return _const_like(p, cls, mc)
 
     step, opts = _step_arg(cfg['stepmode'], h0, nd)
-    kw = dict(method=cfg['method'], step=step)
+    # prev: the object was built and called once with another method; the method attribute is then switched (public setter)
+    kw = dict(method=cfg.get('prev') or cfg['method'], step=step)
     if cls == 'Derivative':
         kw.update(n=cfg['n'], order=cfg['order'])
     elif cls != 'Hessian':
@@ -199,6 +207,10 @@ def run_trace(cfg, xvals, h0, symbolic):
 
     d._extrapolate = fake_extrapolate
     with cm.quiet():
+        if cfg.get('prev'):
+            d(x)
+            del rec[:]
+            d.method = cfg['method']
         d(x)
         ncalls = len(rec)
         x_i = np.atleast_1d(x).ravel() if cls == 'Gradient' else (np.atleast_1d(x) if cls != 'Derivative' else np.asarray(x))
@@ -221,10 +233,10 @@ def _t(v):
     return sn.lift(v)
 
 
-def run_job(job, cls, method, n, order, shape, stepmode):
+def run_job(job, cls, method, n, order, shape, stepmode, prev=None):
     if cls == 'FP':
         return fp_lemmas(job, stepmode)
-    cfg = dict(cls=cls, method=method, n=n, order=order, shape=shape, stepmode=stepmode)
+    cfg = dict(cls=cls, method=method, n=n, order=order, shape=shape, stepmode=stepmode, prev=prev)
     size = int(np.prod(shape)) if shape else 1
     xs = [sn.real_var('x%d' % i) for i in range(size)]
     h0 = sn.real_var('h0')
